@@ -1059,3 +1059,65 @@ Example ex_ghist_run :
   let s := fst (g_run (g_size 1) (mkg (fun _ => 0) (fun _ => 0)) ex_ghist) in
   gshm s 65536 = 75 /\ gfld s 65537 = 75 /\ gshm s 1999999 = 8 /\ gfld s 2000000 = 8 /\ gfld s 65536 = 3.
 Proof. vm_compute. repeat split. Qed.
+
+(* ------------------------------------------------------------------ several goroutines, each on slots of its own *)
+(* Any interleaving of WHOLE operations is a history (run), so the lemmas over all histories speak about it; what is added
+   here is that arithmetic for one slot does not depend on how the operations on other slots are interleaved with its own. *)
+From Coq Require Import ZArith List Lia Bool.
+Import ListNotations.
+Open Scope Z_scope.
+Definition on_slot (u : Z) (o : op) : bool := target o =? u.
+
+Lemma spec_run_cons_fst : forall b o r, fst (spec_run b (o :: r)) = fst (spec_run (fst (spec_step b o)) r).
+Proof.
+  intros b o r. cbn [spec_run]. destruct (spec_step b o) as [b1 v]. cbn [fst]. destruct (spec_run b1 r) as [b2 vs]. reflexivity.
+Qed.
+
+Lemma spec_step_other : forall b o u, target o <> u -> fst (spec_step b o) u = b u.
+Proof.
+  intros b o u Hne. destruct o as [v m | v m | v | v rec | v k bs]; cbn [spec_step target fst] in *; unfold upd;
+    try reflexivity; destruct (u =? v) eqn:E; try reflexivity; apply Z.eqb_eq in E; congruence.
+Qed.
+
+Lemma spec_step_same : forall b b' o, b (target o) = b' (target o) ->
+  fst (spec_step b o) (target o) = fst (spec_step b' o) (target o).
+Proof.
+  intros b b' o Heq. destruct o as [v m | v m | v | v rec | v k bs]; cbn [spec_step target fst] in *; unfold upd;
+    try rewrite Z.eqb_refl; try rewrite Heq; try reflexivity; exact Heq.
+Qed.
+
+Lemma slot_own_history_gen : forall h b b' u, b u = b' u ->
+  fst (spec_run b h) u = fst (spec_run b' (filter (on_slot u) h)) u.
+Proof.
+  induction h as [| o r IH]; intros b b' u Heq.
+  - exact Heq.
+  - cbn [filter]. unfold on_slot at 1. destruct (target o =? u) eqn:E.
+    + apply Z.eqb_eq in E. rewrite !spec_run_cons_fst. apply IH. subst u. apply spec_step_same. exact Heq.
+    + apply Z.eqb_neq in E. rewrite spec_run_cons_fst. apply IH. rewrite spec_step_other by exact E. exact Heq.
+Qed.
+
+Lemma slot_own_history : forall h b u,
+  fst (spec_run b h) u = fst (spec_run b (filter (on_slot u) h)) u.
+Proof. intros h b u. apply slot_own_history_gen. reflexivity. Qed.
+
+(* with the agreement of all histories: after ANY interleaving of whole operations the segment and the Money field of
+   slot u hold what u's own operations, in their own order, compute *)
+Lemma interleaved_whole_ops : forall h s b u, Agree s b -> hist_ok b h -> valid u ->
+  shm (fst (run s h)) (u - 1) = fst (spec_run b (filter (on_slot u) h)) u /\
+  money_field (file (fst (run s h))) u = fst (spec_run b (filter (on_slot u) h)) u.
+Proof.
+  intros h s b u HA HH Hu.
+  pose proof (agree_every_step h s b (length h) HA HH) as [Hall _].
+  rewrite firstn_all in Hall. destruct (Hall u Hu) as [H1 [H2 _]].
+  rewrite <- slot_own_history. split; assumption.
+Qed.
+
+(* non-vacuity: two goroutines, slots 1 and 2, two interleavings of the same four operations *)
+Example interleavings_agree :
+  let b := fun _ : Z => 10 in
+  let h1 := [OpSet 1 1000; OpSet 2 2005; OpDe 1 7; OpDe 2 (-5000)] in
+  let h2 := [OpSet 2 2005; OpDe 2 (-5000); OpSet 1 1000; OpDe 1 7] in
+  (fst (spec_run b h1) 1, fst (spec_run b h1) 2) = (1007, 0) /\
+  (fst (spec_run b h2) 1, fst (spec_run b h2) 2) = (1007, 0) /\
+  filter (on_slot 1) h1 = filter (on_slot 1) h2.
+Proof. vm_compute. repeat split; reflexivity. Qed.
